@@ -171,6 +171,31 @@ pub fn is_none_fn(v: &T) -> (r: bool) ensures r == v.opt().is_none() { v.is_none
         honest_out(&r),                                                   // #C09 fill_preserves_length
 //@end
 
+// ---- abs: each element alone, nulls stay null (the scalar clause - |x| of the inner value, null -> null - is C15's, decided by Kani
+// on every listed type; here it is the interface `vabs_spec` of the element type)
+pub trait VAbs: IsNone {
+    spec fn vabs_spec(self) -> Self;
+    fn vabs(self) -> (r: Self)
+        ensures r == self.vabs_spec(), r.opt().is_none() == self.opt().is_none();
+}
+impl VAbs for T {
+    uninterp spec fn vabs_spec(self) -> T;
+    #[verifier::external_body]
+    fn vabs(self) -> (r: T) { unimplemented!() }
+}
+
+//@fn name=vabs crate=tea-map ctx="pub trait MapValidBasic" props=C13,C09
+//@sig fn vabs(this: It<T>) -> (r: It<T>)
+//@closure 1 mode=annotate params="v: T" ret="(o: T)"
+//@closure 1 spec
+            ensures o == v.vabs_spec(), o.opt().is_none() == v.opt().is_none()
+//@spec
+    requires honest_out(&this),
+    ensures
+        elementwise(r.seq(), this.seq(), |a: T, o: T| o == a.vabs_spec() && o.opt().is_none() == a.opt().is_none()),      // #C13 abs_acts_on_each_element_alone
+        honest_out(&r),                                                                                                   // #C09 abs_preserves_length
+//@end
+
 // clip: nulls stay null; a non-null value below the (non-null) lower bound becomes the lower bound, above the upper bound the upper bound
 pub open spec fn clip_elem(a: T, lower: T, upper: T, o: T) -> bool {
     if a.opt().is_none() { o == a }
